@@ -1648,7 +1648,16 @@ impl Archive {
                 if data.len() <= 64 {
                     log::debug!("Before decrypt: {:02X?}", &data);
                 }
-                decrypt_file_data(&mut data, key);
+                if file_info.is_single_unit() {
+                    decrypt_file_data(&mut data, key);
+                } else {
+                    // Uncompressed files that are not single-unit are still stored in
+                    // sectors, and every sector is encrypted with its own key
+                    let sector_size = self.header.sector_size();
+                    for (i, sector) in data.chunks_mut(sector_size).enumerate() {
+                        decrypt_file_data(sector, key.wrapping_add(i as u32));
+                    }
+                }
                 if data.len() <= 64 {
                     log::debug!("After decrypt: {:02X?}", &data);
                 }
